@@ -299,8 +299,6 @@ def _to_bits(rng, kind, force):
         ref = lambda P: _bits(np.vectorize(lambda x: int(round(x * 2**F)), otypes='O')(P['a']) if P['a'].size else np.zeros(s, dtype=object), L, 0).astype(float)
     else:
         l = rng.choice([None, 7, 4])
-        if math.prod(s) == 0:
-            s = (2,)    # np_to_bits of an EMPTY secfld array crashes (IndexError in np_fromlist([])), see report
         a = rvals(rng, kind, s, 'small')
         L = 7 if l is None else l
         ref = lambda P: _bits(P['a'], L, 0)
@@ -1410,9 +1408,6 @@ def _update(rng, kind, force):
     else:
         key, w = 0, 'basic'
     vs = np.empty(s)[key].shape
-    while kind == 'fxp' and math.prod(vs) == 0:    # zero-size float arrays cannot be constructed (see report)
-        key, w = _rkey(rng, s)
-        vs = np.empty(s)[key].shape if w in ('basic', 'ellipsis', 'intarray') else (0,)
     mode = rng.choice(['secarr', 'secscalar', 'public'])
     v = rvals(rng, kind, vs if mode == 'secarr' else ())
 
@@ -1719,6 +1714,16 @@ def _x_uv(rng, kind, force):
             # c = a - r + R*n is opened modulo p, so c % n is not (a - r) % n (the TODO in the code asks for a conversion)
             'finding_key_numpy': 'np_unit_vector_secfld_wraparound',
             'desc': 'mpc.np_unit_vector(SecFld(101)(1), 6)', 'key': 'x_uv'}
+
+
+@directed('x_np_find_empty_axis', 'int')
+def _x_find_empty(rng, kind, force):
+    """np_find along an EMPTY axis: one index (the not-found value a.shape[axis] = 0) per lane, NumPy-shaped (1,) -- the code
+    returns a scalar (open finding np_find_empty_axis_shape; the np_find generator keeps its search axis non-empty)"""
+    a = np.zeros((1, 0), dtype=object)
+    return {'inputs': {'a': a}, 'call': lambda mpc, S, X: mpc.np_find(X['a'], 1, axis=-1), 'ref': lambda P: np.array([0], dtype=object),
+            'finding_key': 'np_find_empty_axis_shape', 'finding_key_numpy': 'np_find_empty_axis_shape',
+            'desc': 'mpc.np_find(a[1,0], 1, axis=-1)', 'key': 'x_find_empty'}
 
 
 @directed('x_fixed_1163c56', 'int')
